@@ -1,7 +1,8 @@
 """C10, DES part: key_schedule == PC-2(rot(PC-1(key))) for every round and every interrupt_after_round (proved, N symbolic);
 _convert_hypothesis_bits_into_keys: proved by structural induction on the recursion (props/c10_keys.py: the recursive call replaced by
-the function's own contract, generic head, tail result of symbolic length); _find_possible_keys (its 48-iteration loop branches on every
-round-key bit) and get_master_key: bounded stand-in (see c10_native)."""
+the function's own contract, generic head, tail result of symbolic length); _find_possible_keys: its 48-iteration loop (one branch per round-key
+bit) by a per-iteration loop cut, exit postcondition on the list handed to the completion helper, every round; get_master_key (candidate loop with
+trial encryptions): bounded stand-in (see c10_native)."""
 import z3
 from pyvc import core, symnp, solve, loader as L, harness as H, report as R, parallel as P
 from pyvc.core import SInt, SBV
@@ -77,6 +78,9 @@ def run(rep, tier, seed, timeout):
     def kwork(sub, *group):
         for kind, n in group: CK.work(des, sub, kind, n, timeout)
     P.run_units(rep, kwork, kgroups)
+    # _find_possible_keys: per-iteration loop cut + exit postcondition, every round (props/c10_keys.py)
+    def fwork(sub, r): CK.find_possible_keys_case(des, sub, r, timeout)
+    P.run_units(rep, fwork, [(r,) for r in range(16)])
     for kw in (dict(interrupt_after_round=16), dict(interrupt_after_round=-1)):
         def body():
             key = H.sym_bytes('K', (8,), 'uint8'); L.set_task(stubs={'scared._utils::_is_bytes_array': bytes_stub})
